@@ -282,6 +282,48 @@ func ruleC04(w *World, r *Report) {
 	ruleOneBatch(w, r, "C04", "R04.15")
 }
 
+// pdrDirection: what a decision says about the direction of the PDR it is taken on — "uplink" when the
+// boolean v having the value truth means IsUplink() / srcIface == access, "downlink" for IsDownlink() /
+// srcIface == core, "" when it says neither. The predicate methods and the comparison they stand for
+// (checked by R04.3 below) are one decision, whichever is written.
+func pdrDirection(v ssa.Value, truth bool, access, core int64) string {
+	switch x := v.(type) {
+	case *ssa.Call:
+		if g := staticCallee(x); g != nil && truth && g.Signature.Recv() != nil && rootTypeName(g.Signature.Recv().Type()) == "pdr" {
+			switch g.Name() {
+			case "IsUplink":
+				return "uplink"
+			case "IsDownlink":
+				return "downlink"
+			}
+		}
+	case *ssa.BinOp:
+		if (x.Op == token.EQL && truth) || (x.Op == token.NEQ && !truth) {
+			return pdrDirectionCmp(x.X, x.Y, access, core)
+		}
+	}
+	return ""
+}
+
+// pdrDirectionCmp: x == y compares a PDR's source interface with access ("uplink") or core ("downlink").
+func pdrDirectionCmp(x, y ssa.Value, access, core int64) string {
+	k, isK := constInt(y)
+	if !isK {
+		x, y = y, x
+		k, isK = constInt(y)
+	}
+	if !isK || !strings.HasSuffix(symOf(x).String(), "pdr.srcIface") {
+		return ""
+	}
+	switch k {
+	case access:
+		return "uplink"
+	case core:
+		return "downlink"
+	}
+	return ""
+}
+
 // ruleC04AppSide: the application address/port come from the destination side for access
 // PDRs and from the source side for core PDRs, consistently in the entry builder and in the
 // filter key.
@@ -355,12 +397,19 @@ func ruleC04AppSide(w *World, r *Report, apps *ssa.Function, access, core int64)
 		if !feasible {
 			return
 		}
+		// the direction the path decided on, by the predicate methods or by the interface itself
 		side := ""
 		for _, a := range atoms {
-			if a.Truth && strings.HasSuffix(a.Text, "IsUplink(pdr)") {
-				side = "dst"
+			dir := ""
+			if a.V != nil {
+				dir = pdrDirection(a.V, a.Truth, access, core)
+			} else if a.Op == token.EQL && a.Truth {
+				dir = pdrDirectionCmp(a.X, a.Y, access, core)
 			}
-			if a.Truth && strings.HasSuffix(a.Text, "IsDownlink(pdr)") {
+			switch dir {
+			case "uplink":
+				side = "dst"
+			case "downlink":
 				side = "src"
 			}
 		}
@@ -1072,7 +1121,8 @@ func ruleC04AppFilterEmpty(w *World, r *Report) {
 	access := w.ConstInt(P, pfcpPkg, "access")
 	core := w.ConstInt(P, pfcpPkg, "core")
 	names := []string{"P0", "UL", "DL", "DIP0", "DPW", "SIP0", "SPW"}
-	classify := func(v ssa.Value) (string, bool) { // atom name, negated
+	// (at: what a φ holds on the interpreted execution — the predicate may pick the remote end first and test it once)
+	classify := func(v ssa.Value, at func(ssa.Value) ssa.Value) (string, bool) { // atom name, negated
 		switch x := v.(type) {
 		case *ssa.Call:
 			g := staticCallee(x)
@@ -1085,7 +1135,7 @@ func ruleC04AppFilterEmpty(w *World, r *Report) {
 			case "IsDownlink":
 				return "DL", false
 			case "isWildcardMatch":
-				s := symOf(x.Call.Args[0]).String()
+				s := symOf(at(x.Call.Args[0])).String()
 				if strings.Contains(s, "dstPortRange") {
 					return "DPW", false
 				}
@@ -1106,7 +1156,7 @@ func ruleC04AppFilterEmpty(w *World, r *Report) {
 			if !isK {
 				return "", false
 			}
-			s := symOf(a).String()
+			s := symOf(at(a)).String()
 			neg := x.Op == token.NEQ
 			switch {
 			case strings.HasSuffix(s, "appFilter.proto") && c == 0:
@@ -1133,8 +1183,8 @@ func ruleC04AppFilterEmpty(w *World, r *Report) {
 			continue
 		}
 		foreign := ""
-		got, ok := evalBoolFuncV(f, func(v ssa.Value) (bool, bool, bool) {
-			if nm, neg := classify(v); nm != "" {
+		got, ok := evalBoolFuncAt(f, func(v ssa.Value, at func(ssa.Value) ssa.Value) (bool, bool, bool) {
+			if nm, neg := classify(v, at); nm != "" {
 				return env[nm] != neg, true, true
 			}
 			if _, isCall := v.(*ssa.Call); isCall {
